@@ -408,7 +408,7 @@ struct Obs {
 }
 
 fn observe(ctx: &Ctx, c: &Case) -> Obs {
-  let sb = Sandbox::new(&ctx.work, "c06");
+  let sb = Sandbox::new_tmpfs(&ctx.work, "c06");
   let mut rng = Rng(c.shuffle_seed);
   let mut link_id = 0;
   build(&sb, "root", &c.root, &mut rng, &mut link_id);
